@@ -2,7 +2,29 @@
 From Coq Require Import List Arith Bool Lia.
 Import ListNotations.
 From YV Require model.Handoff proofs.HandoffProofs.
-From YV Require Import model.WaitEv proofs.WaitEvProofs proofs.WaitEvProofsW.
+From YV Require Import model.WaitEv proofs.WaitEvProofs proofs.WaitEvProofsP proofs.WaitEvProofsW.
+
+(* ---- the invariant is inductive ------------------------------------------------------------------ *)
+
+Theorem inv_step s e s' : Inv s -> step s e = Some s' -> Inv s'.
+Proof.
+  intros I H. destruct e.
+  - eapply inv_step_set; eauto.
+  - eapply inv_step_xchg; eauto.
+  - eapply inv_step_subp; eauto.
+  - eapply inv_step_plock; eauto.
+  - eapply inv_step_pnotify; eauto.
+  - eapply inv_step_punlock; eauto.
+  - eapply inv_step_ldw; eauto.
+  - eapply inv_step_casw; eauto.
+  - eapply inv_step_subw; eauto.
+  - eapply inv_step_wlock; eauto.
+  - eapply inv_step_waitenter; eauto.
+  - eapply inv_step_timeout; eauto.
+  - eapply inv_step_waitret; eauto.
+  - eapply inv_step_wunlock; eauto.
+  - eapply inv_step_ret; eauto.
+Qed.
 
 Definition good_cfg (n_ : nat) (one_ : bool) : Prop := 1 <= n_ /\ (one_ = true -> n_ = 1).
 
